@@ -175,8 +175,12 @@ class Run:
         self.spawn_refused: list = []
         self.cancel_phases: list[tuple] = []
         self.cancel_in_cleanup: list[bool] = []
+        self.pending_at_cancel: list[list[str]] = []
 
         def on_cancel(name: str) -> None:
+            self.pending_at_cancel.append(
+                [s["name"] for s in getattr(self, "all_spawned", []) if s["task"] is not None and not s["task"].done()]
+            )
             self.cancel_phases.append(tuple(self.phase))
             self.cancel_in_cleanup.append(any(d.in_exit for ds in self.disp.values() for d in ds))
 
@@ -363,6 +367,10 @@ class Run:
                 rec["end"] = "ret"
             except asyncio.CancelledError:
                 rec["end"] = "cancelled"
+                if sp["kind"] == "raise_on_cancel":
+                    # clean-up code of the task fails while it is being cancelled
+                    rec["end"] = "raise-on-cancel"
+                    raise SpawnErr(name + " (while cancelled)") from None
                 if sp["kind"] == "respawn":
                     # cleanup code that tries to spawn follow-up work while the scope is shutting
                     # down: it must be refused (or awaited) - never left running detached
